@@ -651,6 +651,13 @@ func addLight() {
 	for _, b := range []string{"a[0] = 1", "a[5] = 1", "m.a = 1", "m.b.c = 1", `delete(m, "a")`, "splice(a, 0, 1)", "a[0][0] = 9"} {
 		st("immutable/"+tag(b), "a := immutable([[1], 2])\nm := immutable({a: 1, b: {c: 2}})", b)
 	}
+	// a slice taken earlier shares the array's storage: shrinking / emptying the array afterwards must not leave
+	// anything in the slice that later whole-container operations (in the script or in the follow-up API calls) trip over
+	for _, b := range []string{"w := a[1:3]\nsplice(a, 0, 2)", "w := a[0:2]\nsplice(a)\nout := string(w)", "w := a[1:]\nsplice(a, 0, 3)\nx := w[0]",
+		"w := a[:]\nsplice(a, 1)\nfor v in w {\n\tx := [v]\n}", "w := a[0:3]\nsplice(a, 1, 2)\nout := copy(w)", "w := a[2:]\nsplice(a, 2, 1)\nout := w == [3]",
+		"w := a[1:2]\na = splice(a, 0, 3)\nout := format(\"%v\", w)"} {
+		st("alias/slice-then-splice/"+tag(b), a3, b)
+	}
 	// format
 	for _, e := range []string{`format("%2000000000d", 1)`, `format("%.2000000000f", 1.0)`, `format("%*d", 2000000000, 1)`, `format("%*d", -2000000000, 1)`,
 		`format("%1000001d", 1)`, `format("%1000000d", 1)`, `format("%.*f", 2000000000, 1.0)`, `format("%*d", ` + maxI + `, 1)`, `format("%*d", ` + minI + `, 1)`,
